@@ -43,10 +43,17 @@ OpIsDecl(c, loose) ==
 EnforceOK(c) == \E loose \in BOOLEAN : Match(c, Enforce(c.call, c.st, EnvOf(c, loose))) /\ OpIsDecl(c, loose)
 
 \* C07: with do_raise off the result is falsy exactly when do_raise on raises
-PairOK(c) == (c.a.o = "ret" /\ c.a.v = 0) <=> (c.b.o = "raise")
+\* (an exception that does not depend on the mode - unregistered name, bad
+\* credentials object - is raised in both)
+PairOK(c) == IF c.a.o = "raise" THEN c.b.o = "raise" /\ c.b.cls = c.a.cls
+             ELSE (c.a.v = 0) <=> (c.b.o = "raise")
+
+\* C06: the same query on a rule set and on the set with one reference inlined
+SameOK(c) == c.a.o = c.b.o /\ c.a.v = c.b.v /\ c.a.cls = c.b.cls
 
 Verdict(c) == CASE c.kind = "enforce" -> EnforceOK(c)
                 [] c.kind = "pair" -> PairOK(c)
+                [] c.kind = "same" -> SameOK(c)
 
 Init == cid \in 1..Len(Cases) /\ ph = 0 /\ ok = TRUE
 Next == ph = 0 /\ ph' = 1 /\ ok' = Verdict(Cases[cid]) /\ UNCHANGED cid
